@@ -381,6 +381,18 @@ fn scenario_pairs() -> Vec<(&'static str, &'static str, &'static str)> {
         ("template-text-placed", r##"<svg><specs><text id="t" text="$label"/></specs><reuse href="#t" label="hi" x="30" y="40"/><reuse href="#t" label="ho" x="60" y="40"/></svg>"##, r##"<svg><text x="30" y="40" text="hi" class="t"/><text x="60" y="40" text="ho" class="t"/></svg>"##),
         ("reuse-of-reuse-placed", r##"<svg><specs><g id="r"><rect wh="$s"/></g><reuse id="q" href="#r" s="4"/></specs><reuse href="#q" x="10"/><reuse href="#q" y="10"/></svg>"##, r##"<svg><g transform="translate(10, 0)" class="q r"><rect wh="4"/></g><g transform="translate(0, 10)" class="q r"><rect wh="4"/></g></svg>"##),
         ("reuse-of-reuse-in-specs", r##"<svg><specs><rect id="r" wh="$s"/><reuse id="q" href="#r" s="4"/></specs><reuse href="#q"/></svg>"##, r##"<svg><rect wh="4" class="q r"/></svg>"##),
+        // second review round
+        ("placed-compound-position/circle-xy", r##"<svg><specs><circle id="t" xy="0" wh="$s"/></specs><reuse href="#t" s="4" x="10" y="20"/></svg>"##, r##"<svg><circle xy="10 20" wh="4" class="t"/></svg>"##),
+        ("placed-compound-position/rect-cxy", r##"<svg><specs><rect id="t" cxy="$h" wh="{{$h*2}}"/></specs><reuse href="#t" h="2" x="10" y="20"/></svg>"##, r##"<svg><rect x="10" y="20" wh="4" class="t"/></svg>"##),
+        ("placed-compound-position/rect-xy2", r##"<svg><specs><rect id="t" xy2="7" wh="$s"/></specs><reuse href="#t" s="4" x="10" y="20"/></svg>"##, r##"<svg><rect x="10" y="20" wh="4" class="t"/></svg>"##),
+        ("template-sized-by-reference/width", r##"<svg><rect id="o" wh="10 4"/><specs><rect id="t" width="#o~w" height="$h"/></specs><reuse href="#t" h="3"/></svg>"##, r##"<svg><rect id="o" wh="10 4"/><rect width="#o~w" height="3" class="t"/></svg>"##),
+        ("template-sized-by-reference/wh", r##"<svg><rect id="o" wh="10 4"/><specs><rect id="t" wh="#o" rx="$r"/></specs><reuse href="#t" r="1" xy="20 0"/></svg>"##, r##"<svg><rect id="o" wh="10 4"/><rect xy="20 0" wh="#o" rx="1" class="t"/></svg>"##),
+        ("template-with-clip-path", r##"<svg><clipPath id="c"><rect wh="2"/></clipPath><specs><rect id="t" wh="$s" clip-path="url(#c)"/></specs><reuse href="#t" s="10" x="20"/></svg>"##, r##"<svg><clipPath id="c"><rect wh="2"/></clipPath><rect x="20" wh="10" clip-path="url(#c)" class="t"/></svg>"##),
+        ("template-without-user-size/image", r##"<svg><specs><image id="t" href="$f"/></specs><reuse href="#t" f="a.png" x="10" y="20"/></svg>"##, r##"<svg><image href="a.png" x="10" y="20" class="t"/></svg>"##),
+        ("template-without-user-size/unit-width", r##"<svg><specs><rect id="t" width="2cm" height="$h"/></specs><reuse href="#t" h="3" x="10" y="20"/></svg>"##, r##"<svg><rect x="10" y="20" width="2cm" height="3" class="t"/></svg>"##),
+        ("defaults-once/template-with-end-tag", r##"<svg><defaults><rect transform="translate(5)" style="fill:red"/></defaults><specs><rect id="t" wh="$s">hi</rect></specs><reuse href="#t" s="3"/></svg>"##, r##"<svg><defaults><rect transform="translate(5)" style="fill:red"/></defaults><rect wh="3" class="t">hi</rect></svg>"##),
+        ("defaults-once/reuse-with-end-tag", r##"<svg><defaults><_ transform="translate(5)"/></defaults><specs><rect id="t" wh="$s"/></specs><reuse href="#t" s="3"></reuse></svg>"##, r##"<svg><defaults><_ transform="translate(5)"/></defaults><rect wh="3" class="t"/></svg>"##),
+        ("previous-element/parameters", r##"<svg><var s="3"/><rect wh="$s"/><reuse href="^" s="5" x="10"/></svg>"##, r##"<svg><var s="3"/><rect wh="$s"/><rect x="10" wh="5"/></svg>"##),
         ("defaults-apply-to-instance", r##"<svg><defaults><rect rx="2" class="d"/></defaults><specs><rect id="t" wh="$s"/></specs><reuse href="#t" s="3"/></svg>"##, r##"<svg><defaults><rect rx="2" class="d"/></defaults><rect wh="3" class="t"/></svg>"##),
     ]
 }
